@@ -140,9 +140,9 @@ def check_C05(chk):
                 "size modes; randomized long sessions are recorded and validated by Trace_Conn. A case is one behaviour "
                 "or one recorded event; distinct = distinct behaviours by content hash.")
     mc(chk, "c05_trunc", consts(MaxFrames="= 3", MaxErr="= 0", Classes="<- ClsUdp", Verifies="<- GateOn", Truncation="= TRUE"), needs=("DoPeerTruncated", "FillEof"))
-    mc(chk, "c05_stream", consts(MaxFrames="= 4" if thorough else "= 3", MaxErr="= 1", Verifies="<- GateBoth" if thorough else "<- GateOn",
-                                 Lens="<- L48", Cap="= 12"),
-       timeout=3000, needs=("FillStream", "FillErr", "FillEof", "TryDecode"))
+    # quick: 3 frames (3.1M states); thorough: 4 frames (29M states, about 10 min on 14 workers); the gate is C09's business
+    mc(chk, "c05_stream", consts(MaxFrames="= 4" if thorough else "= 3", MaxErr="= 1", Verifies="<- GateOn", Lens="<- L48", Cap="= 12"),
+       workers=14 if thorough else 8, timeout=3000, needs=("FillStream", "FillErr", "FillEof", "TryDecode"))
     mc(chk, "c05_short", consts(Classes="<- ClsShort", Verifies="<- GateOn"))
     # liveness under weak fairness of the read loop (unconstrained FairSpec): every frame that arrived is eventually delivered
     cfg = write_cfg("c05_live", "FairSpec", consts(MaxFrames="= 2", Classes="<- ClsUdp", Verifies="<- GateOn", KeepHist="= FALSE"), properties=["AllDelivered"])
